@@ -430,3 +430,101 @@ def typed_prog(rng, kind, profile, family=None, handler=None, lets=(), meet=Fals
     p.fam = fam
     p.names = g.names
     return p
+
+
+# ----------------------------------------------------------------------------- typed programs for the async kinds (ready futures)
+def ty_toks(t):
+    return ty_rust(t).replace('<', ' < ').replace('>', ' > ').replace(',', ' , ').split()
+
+
+def typed_prog_async(rng, kind, profile, handler=None, lets=(), fail_rate=0.15, cap_rate=0.2, wrap_rate=0.2):
+    """A typed program for an async kind: every branch value is a (ready) future; operators are the futures-0.3 combinators
+    the async macros rely on (map, and_then, inspect, or_else, map_err) plus wrappers over the future's output."""
+    is_try = kind[1] == '1'
+    g = TypedGen(rng, kind, fail_rate=fail_rate, cap_rate=cap_rate, wrap_rate=wrap_rate)
+    g.names = ['x%d' % b for b in range(len(profile)) if b in lets]
+    brs = []
+    for b, d in enumerate(profile):
+        t = ('Res', INT) if (is_try or rng.random() < 0.5) else rng.choice([('Opt', INT), INT])
+        brs.append(dict(t=t, acts=[], init=None))
+
+    def one_op(t):
+        cands = ['map', 'inspect']
+        if t[0] == 'Res':
+            cands += ['and_then', 'or_else', 'map_err']
+        if t[0] in ('Opt', 'Res') and rng.random() < wrap_rate:
+            cands = ['wrap_map', 'wrap_and_then']
+        c = rng.choice(cands)
+        T = ty_toks(t)
+        if c == 'map':
+            k = rng.randint(1, 5)
+            return [Act('Map', [g.call(['wadd', ':', ':', '<'] + T + ['>'], [znum(k)], '(KWAdd %d)' % k)])]
+        if c == 'inspect':
+            return [Act('Inspect', [g.call(['ins', ':', ':', '<'] + T + ['>'], [], 'KUnit', blockable=False)])]
+        if c == 'and_then':
+            m, r, k, e = (rng.choice([2, 3]), 0, rng.randint(1, 4), rng.randint(60, 69))
+            if rng.random() > fail_rate * 3:
+                m, r = 1000, 999
+            return [Act('AndThen', [g.call('fres_if', [[str(m)], [str(r)], [str(k)], [str(e)]], '(KFut (KResIf %d %d %d %d))' % (m, r, k, e))])]
+        if c == 'or_else':
+            k = rng.choice([1, 2, -1])
+            return [Act('OrElse', [g.call('for_else_res', [znum(k)], '(KFut (KOrElseRes %s))' % Z(k))])]
+        if c == 'map_err':
+            k = rng.randint(1, 5)
+            return [Act('MapErr', [g.call('add', [znum(k)], '(KAdd %d)' % k)])]
+        if c == 'wrap_map':
+            k = rng.randint(1, 5)
+            acts = [Act('Map', wrap=True), Act('Map', [g.call('add', [znum(k)], '(KAdd %d)' % k)])]
+            if rng.random() < 0.6:
+                acts.append(Act(None, unwrap=True))
+            return acts
+        if c == 'wrap_and_then':
+            m, r, k = (2, 0, 1) if rng.random() < fail_rate * 2 else (1000, 999, rng.randint(1, 3))
+            if t[0] == 'Opt':
+                inner = Act('AndThen', [g.call('opt_if', [[str(m)], [str(r)], [str(k)]], '(KOptIf %d %d %d)' % (m, r, k))])
+            else:
+                e = rng.randint(60, 69)
+                inner = Act('AndThen', [g.call('res_if', [[str(m)], [str(r)], [str(k)], [str(e)]], '(KResIf %d %d %d %d)' % (m, r, k, e))])
+            acts = [Act('Map', wrap=True), inner]
+            if rng.random() < 0.6:
+                acts.append(Act(None, unwrap=True))
+            return acts
+        raise AssertionError(c)
+
+    for k in range(max(profile)):
+        g.step = k
+        for b, d in enumerate(profile):
+            if k >= d:
+                continue
+            br = brs[b]
+            g.tab.cur = (b, k)
+            if k == 0:
+                toks, cv = val_rust(br['t'], rng, fail=rng.random() < fail_rate / 2) if br['t'] != INT else val_rust(INT, rng)
+                g.noblock = True
+                br['init'] = g.call(['fut', ':', ':', '<'] + ty_toks(br['t']) + ['>'], [toks], '(KConst (VFut %s))' % cv)
+                g.noblock = False
+            acts = []
+            for _ in range(rng.randint(0 if k == 0 else 1, 3)):
+                a = one_op(br['t'])
+                acts += a
+                if a[0].wrap and not a[-1].unwrap:
+                    break                       # the wrapper stays open until the end of the step
+            if k > 0:
+                acts[0].deferred = True
+            br['acts'] += acts
+    branches = [Branch(br['init'], br['acts'], ('x%d' % b) if b in lets else None) for b, br in enumerate(brs)]
+    n = len(profile)
+    g.tab.cur = (-1, max(profile))
+    h = None
+    if handler == 'then':
+        h = ('then', g.tab.new(lambda i: (['fhd%d' % n, '(', str(i), ')'], '(KFut KTuple)', False)))
+    elif handler == 'map':
+        h = ('map', g.tab.new(lambda i: (['hd%d' % n, '(', str(i), ')'], 'KTuple', False)))
+    elif handler == 'and_then':
+        h = ('and_then', g.tab.new(lambda i: (['fhd%d_ok' % n, '(', str(i), ')'], '(KFut KTupleOk)', False)))
+    p = Prog(kind, branches, h)
+    p.table = g.tab
+    p.types = [br['t'] for br in brs]
+    p.fam = 'Res'
+    p.names = g.names
+    return p
